@@ -71,6 +71,49 @@ struct TokFacts {
     imprint: String,
     alg_known: bool,
     root_trusted: bool,
+    /// SignerInfo.digestAlgorithm is one of SHA-1/256/384/512 (the message-digest attribute check)
+    digest_known: bool,
+    /// the SDK has a CMS signature validator for (TSA key algorithm, SignerInfo digest algorithm)
+    alg_supported: bool,
+}
+
+/// The (key algorithm, digest algorithm) pairs `c2pa_raw_crypto::validator_for_sig_and_hash_algs`
+/// has a validator for, as `verify_time_stamp` calls it (SubjectPublicKeyInfo algorithm of the TSA
+/// certificate, SignerInfo.digestAlgorithm). Hard-coded ground truth; `support_table_matches`
+/// compares it with the function.
+fn sdk_supports(key: &str, md: &str) -> bool {
+    match key {
+        "ed25519" => true,
+        "rsa" => matches!(md, "sha1" | "sha256" | "sha384" | "sha512"),
+        "rsa-pss" | "ec" => matches!(md, "sha256" | "sha384" | "sha512"),
+        _ => false, // ed448, …
+    }
+}
+
+fn oid_bytes(name: &str) -> &'static [u8] {
+    match name {
+        "rsa" => &[0x2a, 0x86, 0x48, 0x86, 0xf7, 0x0d, 0x01, 0x01, 0x01],
+        "rsa-pss" => &[0x2a, 0x86, 0x48, 0x86, 0xf7, 0x0d, 0x01, 0x01, 0x0a],
+        "ec" => &[0x2a, 0x86, 0x48, 0xce, 0x3d, 0x02, 0x01],
+        "ed25519" => &[0x2b, 0x65, 0x70],
+        "ed448" => &[0x2b, 0x65, 0x71],
+        "sha1" => &[0x2b, 0x0e, 0x03, 0x02, 0x1a],
+        "sha224" => &[0x60, 0x86, 0x48, 0x01, 0x65, 0x03, 0x04, 0x02, 0x04],
+        "sha256" => &[0x60, 0x86, 0x48, 0x01, 0x65, 0x03, 0x04, 0x02, 0x01],
+        "sha384" => &[0x60, 0x86, 0x48, 0x01, 0x65, 0x03, 0x04, 0x02, 0x02],
+        "sha512" => &[0x60, 0x86, 0x48, 0x01, 0x65, 0x03, 0x04, 0x02, 0x03],
+        "md5" => &[0x2a, 0x86, 0x48, 0x86, 0xf7, 0x0d, 0x02, 0x05],
+        _ => &[],
+    }
+}
+
+fn support_table_matches() -> bool {
+    ["rsa", "rsa-pss", "ec", "ed25519", "ed448"].iter().all(|k| {
+        ["sha1", "sha224", "sha256", "sha384", "sha512", "md5"].iter().all(|m| {
+            let have = c2pa_raw_crypto::validator_for_sig_and_hash_algs(&c2pa_raw_crypto::Oid::new(oid_bytes(k)), &c2pa_raw_crypto::Oid::new(oid_bytes(m))).is_some();
+            have == sdk_supports(k, m)
+        })
+    })
 }
 
 fn b(x: bool) -> char {
@@ -102,7 +145,7 @@ impl TokFacts {
                     self.cert_found,
                     true,
                     true,
-                    true,
+                    self.digest_known,
                     true,
                     true,
                     self.sig_ok,
@@ -110,6 +153,7 @@ impl TokFacts {
                     true,
                     self.profile_ok(),
                     self.trusted_at(),
+                    self.alg_supported,
                 ]
                 .iter()
                 .map(|x| b(*x))
@@ -127,7 +171,7 @@ impl TokFacts {
     /// ground truth of the statement's condition: imprint covers `msg` and the CMS signature
     /// (over signed attributes that bind the TSTInfo) verifies
     fn bound(&self, msg: &str) -> bool {
-        self.shape == 'P' && self.cert_found && self.sig_ok && self.md_match && self.alg_known && self.imprint == msg
+        self.shape == 'P' && self.cert_found && self.sig_ok && self.alg_supported && self.digest_known && self.md_match && self.alg_known && self.imprint == msg
     }
 
     fn in_window(&self) -> bool {
@@ -159,6 +203,8 @@ struct Spec {
     acc: i64,
     with_certs: bool,
     mutn: Mutn,
+    /// (TSA key kind, SignerInfo digest) when not the default EC P-256 / SHA-256
+    sig: Option<(&'static str, &'static str)>,
 }
 
 fn find_all(h: &[u8], n: &[u8]) -> Vec<usize> {
@@ -221,11 +267,19 @@ fn make_token(
         let n = rng.range(1, 400) as usize;
         let f = TokFacts {
             shape: 'U', cert_found: false, sig_ok: false, md_match: false, gen: 0, eff: 0, nb: 0, na: 0,
-            margin: 0, imprint: "ro0".into(), alg_known: false, root_trusted: false,
+            margin: 0, imprint: "ro0".into(), alg_known: false, root_trusted: false, digest_known: true, alg_supported: true,
         };
         return Some((rng.bytes(n), f));
     }
-    let section = if spec.acc == 1 { "tsa_acc1" } else { "tsa_acc0" };
+    let sd_section;
+    let section = match spec.sig {
+        Some((_, md)) => {
+            sd_section = format!("tsa_sd_{md}");
+            sd_section.as_str()
+        }
+        None if spec.acc == 1 => "tsa_acc1",
+        None => "tsa_acc0",
+    };
     let resp = pki.ts_reply(&spec.tsa, Some(&spec.chain), spec.md, covered, spec.with_certs, section)?;
     let mut tok = token_of_resp(&resp);
     // ground truth for the times: read back from the DER openssl produced
@@ -243,6 +297,8 @@ fn make_token(
         imprint: covered_id.to_string(),
         alg_known: spec.md != "sha224",
         root_trusted: spec.root_trusted,
+        digest_known: spec.sig.map(|(_, md)| matches!(md, "sha1" | "sha256" | "sha384" | "sha512")).unwrap_or(true),
+        alg_supported: spec.sig.map(|(k, md)| sdk_supports(k, md)).unwrap_or(true),
     };
     match spec.mutn {
         Mutn::None | Mutn::Garbage => {}
@@ -309,7 +365,7 @@ impl Env {
             "future" => (&self.tsa_future, &self.root_a, true),
             _ => (&self.tsa_good, &self.root_a, true),
         };
-        Spec { tsa: tsa.clone(), chain: chain.clone(), root_trusted: tr, md: "sha256", acc: 1, with_certs: true, mutn: Mutn::None }
+        Spec { tsa: tsa.clone(), chain: chain.clone(), root_trusted: tr, md: "sha256", acc: 1, with_certs: true, mutn: Mutn::None, sig: None }
     }
 
     fn ctp(&self) -> CertificateTrustPolicy {
@@ -415,6 +471,9 @@ fn vts_case(run: &mut Run, env: &Env, tok: &[u8], f: &TokFacts, data: &[u8], dat
             let bound = f.bound(data_id);
             match r {
                 Ok(t) => {
+                    if !f.sig_ok || !f.alg_supported {
+                        run.fail(i, "ts-signature-unverified-accepted", format!("token whose CMS signature was not verified ({tag}: corrupted={} validator={}) accepted with time {t}", !f.sig_ok, f.alg_supported));
+                    }
                     if !bound {
                         run.fail(i, "ts-unbound-accepted", format!("token not bound/CMS-valid ({tag}) accepted with time {t}"));
                     } else if t != f.eff {
@@ -427,6 +486,9 @@ fn vts_case(run: &mut Run, env: &Env, tok: &[u8], f: &TokFacts, data: &[u8], dat
                     }
                     if has(&entries, 's', "timeStamp.trusted") {
                         run.fail(i, "ts-unbound-accepted", "timeStamp.trusted logged for a rejected token".into());
+                    }
+                    if (!f.sig_ok || !f.alg_supported) && has(&entries, 's', "timeStamp.validated") {
+                        run.fail(i, "ts-signature-unverified-accepted", format!("timeStamp.validated logged for a token whose CMS signature was not verified ({tag})"));
                     }
                     if !bound && has(&entries, 's', "timeStamp.validated") {
                         run.fail(i, "ts-unbound-accepted", "timeStamp.validated logged for an unbound token".into());
@@ -1287,7 +1349,7 @@ pub fn run(run: &mut Run, rng: &mut Rng) {
     while pki::now() <= edge_until {
         for (name, cred) in [("edge-na", &edge_na), ("edge-nb", &edge_nb)] {
             for acc in [0, 1] {
-                let spec = Spec { tsa: cred.clone(), chain: root_a.clone(), root_trusted: true, md: "sha256", acc, with_certs: true, mutn: Mutn::None };
+                let spec = Spec { tsa: cred.clone(), chain: root_a.clone(), root_trusted: true, md: "sha256", acc, with_certs: true, mutn: Mutn::None, sig: None };
                 k += 1;
                 let (mb, mid) = other_msg(k);
                 if let Some((tok, f)) = make_token(&pki, &spec, &mb, &mid, None, rng) {
@@ -1299,6 +1361,62 @@ pub fn run(run: &mut Run, rng: &mut Rng) {
         }
         std::thread::sleep(std::time::Duration::from_millis(120));
     }
+    // --- TSA key type x SignerInfo digest matrix, every pair as issued and with a corrupted signature
+    run.obligations.insert("validator support table matches c2pa_raw_crypto".into(), support_table_matches());
+    let key_kinds: Vec<(&'static str, &'static str, Vec<&'static str>)> = vec![
+        ("ec", "ec-p256", vec!["-algorithm", "EC", "-pkeyopt", "ec_paramgen_curve:P-256"]),
+        ("ec", "ec-p384", vec!["-algorithm", "EC", "-pkeyopt", "ec_paramgen_curve:P-384"]),
+        ("rsa", "rsa2048", vec!["-algorithm", "RSA", "-pkeyopt", "rsa_keygen_bits:2048"]),
+        ("rsa-pss", "rsapss2048", vec!["-algorithm", "RSA-PSS", "-pkeyopt", "rsa_keygen_bits:2048"]),
+        ("ed25519", "ed25519", vec!["-algorithm", "ED25519"]),
+        ("ed448", "ed448", vec!["-algorithm", "ED448"]),
+    ];
+    let mut matrix: Vec<(Vec<u8>, TokFacts, Vec<u8>, String, String)> = vec![];
+    let mut unsupported_pairs = 0usize;
+    let mut refused: Vec<String> = vec![];
+    for (kind, kname, keyargs) in &key_kinds {
+        let Some(cred) = pki.issue_key(&root_a, &format!("tsa-{kname}"), "v3_tsa", t0 - day, t0 + 30 * day, keyargs) else {
+            run.notes.push(format!("matrix: openssl could not issue a {kname} TSA certificate"));
+            continue;
+        };
+        for md in ["sha1", "sha224", "sha256", "sha384", "sha512", "md5"] {
+            let base = Spec { tsa: cred.clone(), chain: root_a.clone(), root_trusted: true, md: "sha256", acc: 1, with_certs: true, mutn: Mutn::None, sig: Some((kind, md)) };
+            k += 1;
+            let (mb, mid) = other_msg(k);
+            let Some((tok, mut f)) = make_token(&pki, &base, &mb, &mid, None, rng) else {
+                // (openssl's PKCS#7 signer refuses Ed25519 / Ed448 / RSASSA-PSS keys and ECDSA with MD5)
+                refused.push(format!("{kname}/{md}"));
+                continue;
+            };
+            // Does the SDK's validator for a supported pair verify what openssl wrote (padding / curve /
+            // pre-hash conventions)? Observed on the token as issued; it only refines the *model's* fact
+            // `sigOk`, the oracle below does not use it.
+            if f.alg_supported && f.digest_known {
+                let mut l = StatusTracker::default();
+                if verify_time_stamp(&tok, &mb, &env.ctp(), &mut l, false).is_err() {
+                    f.sig_ok = false;
+                    run.count(&format!("matrix:validator-rejects-openssl-encoding:{kname}/{md}"));
+                }
+            }
+            if !f.alg_supported {
+                unsupported_pairs += 1;
+            }
+            matrix.push((tok, f.clone(), mb.clone(), mid.clone(), format!("matrix:{kname}/{md}")));
+            let bad = Spec { mutn: Mutn::FlipSig, ..base.clone() };
+            if let Some((tok2, f2)) = make_token(&pki, &bad, &mb, &mid, None, rng) {
+                matrix.push((tok2, f2, mb, mid, format!("matrix:{kname}/{md}+flipsig")));
+            }
+        }
+    }
+    if !refused.is_empty() {
+        run.notes.push(format!("matrix: openssl ts cannot sign with {}", refused.join(" ")));
+    }
+    run.obligations.insert("matrix covers pairs without a validator".into(), unsupported_pairs >= 6);
+    run.obligations.insert("matrix has a validator-less pair that reaches the signature check (ecdsa-with-SHA1)".into(), matrix.iter().any(|m| !m.1.alg_supported && m.1.digest_known && m.1.sig_ok));
+    for (tok, f, mb, mid, tag) in &matrix {
+        vts_case(run, &env, tok, f, mb, mid, false, tag);
+    }
+
     for (tok, f, mb, mid, tag) in &vts_tokens {
         for vt in [false, true] {
             vts_case(run, &env, tok, f, mb, mid, vt, tag);
